@@ -825,6 +825,13 @@ func (bc *Blockchain) jumpToStateInternal(p uint32, stage stateChangeStage) erro
 			if err != nil {
 				return fmt.Errorf("failed to remove outdated state data for the genesis block: %w", err)
 			}
+			// DeleteBlock removes the header as well, but the header chain must stay
+			// readable down to the genesis: header hashes are restored from it on start
+			// until the first batch of header hashes is stored.
+			err = cache.StoreHeader(&genesisBlock.Header)
+			if err != nil {
+				return fmt.Errorf("failed to keep the genesis header: %w", err)
+			}
 			prefixes := []byte{byte(storage.STNEP11Transfers), byte(storage.STNEP17Transfers), byte(storage.STTokenTransferInfo)}
 			for i := range prefixes {
 				cache.Store.Seek(storage.SeekRange{Prefix: prefixes[i : i+1]}, func(k, v []byte) bool {
